@@ -140,6 +140,48 @@ def replay_dump(run, blocks, replayer, kind='call'):
     return byf
 
 
+class _Ordered:
+    """picklable: replay a list of blocks, in the given order, in the calling (fresh) process"""
+    def __init__(self, replayer):
+        self.replayer = replayer
+
+    def __call__(self, item):
+        name, blocks = item
+        r = self.replayer(blocks)
+        for d in r['dis']:
+            d['features'] = dict(d['features'], order=name)
+            d['case'] = dict(d['case'], order_in_one_process=name)
+        return r
+
+
+def replay_orders(run, blocks, replayer, key=None, sample=3000, kind='call'):
+    """The same cases again in a few evaluation ORDERS, each order in ONE freshly forked process: state that a call
+    leaves behind in the process (a memo keyed too coarsely, a registry, numpy error state) makes a LATER case go wrong.
+    Orders: sorted by `key` ascending, descending, and two seeded shuffles.  Disagreements carry the order's name."""
+    import random
+    from .pool import pmap_fresh
+    rng = random.Random(run.seed * 7907 + 3)
+    blocks = list(blocks)
+    if len(blocks) > sample:
+        blocks = rng.sample(blocks, sample)
+    orders = []
+    if key is not None:
+        asc = sorted(blocks, key=key)
+        orders += [('ascending', asc), ('descending', asc[::-1])]
+    for k in range(2):
+        sh = list(blocks)
+        rng.shuffle(sh)
+        orders.append((f'shuffle-{k}', sh))
+    n = 0
+    for r in pmap_fresh(_Ordered(replayer), orders):
+        run.evaluations += r['calls']
+        n += r['calls']
+        for d in r['dis'][:40]:
+            run.disagree(kind, d['case'], d['exp'], d['obs'], d['features'], clause=d['path'], repro=repro_text(d))
+    run.notes['ordered_process_evaluations'] = run.notes.get('ordered_process_evaluations', 0) + n
+    return n
+
+
 def repro_text(d):
     if d.get('formula'):
         return ("from xlcalculator import ModelCompiler, Evaluator\n"
